@@ -488,6 +488,11 @@ impl Bytes {
             return mem::replace(self, Bytes::new_empty_with_ptr(self.ptr));
         }
 
+        // verif: under cfg(kani) the message arguments are dropped (run-time fmt::Arguments
+        // construction on a panic path dominates symbolic execution); the condition is unchanged.
+        #[cfg(kani)]
+        assert!(at <= self.len(), "split_off out of bounds");
+        #[cfg(not(kani))]
         assert!(
             at <= self.len(),
             "split_off out of bounds: {:?} <= {:?}",
@@ -540,6 +545,9 @@ impl Bytes {
             return Bytes::new_empty_with_ptr(self.ptr);
         }
 
+        #[cfg(kani)]
+        assert!(at <= self.len(), "split_to out of bounds");
+        #[cfg(not(kani))]
         assert!(
             at <= self.len(),
             "split_to out of bounds: {:?} <= {:?}",
@@ -711,6 +719,9 @@ impl Buf for Bytes {
 
     #[inline]
     fn advance(&mut self, cnt: usize) {
+        #[cfg(kani)]
+        assert!(cnt <= self.len(), "cannot advance past `remaining`");
+        #[cfg(not(kani))]
         assert!(
             cnt <= self.len(),
             "cannot advance past `remaining`: {:?} <= {:?}",
